@@ -7,8 +7,8 @@ EXTENDS M2Layout, IOUtils
 Thorough == IOEnv.VERIF_TIER = "thorough"
 \* sections whose sizes vary with the version or that carry payloads, plus fixed-size neighbours
 MCSecs == IF Thorough
-          THEN {"name", "animations", "bones", "textures", "views", "events", "cameras"}
-          ELSE {"animations", "bones", "textures", "events"}
+          THEN {"name", "animations", "bones", "textures", "views", "events", "cameras", "lights"}
+          ELSE {"animations", "bones", "textures", "events", "cameras"}
 KfChoices == IF Thorough THEN BOOLEAN ELSE {TRUE}
 Many == 3
 TailBytes(sec) == IF sec \in Tracked THEN Many * TracksOf(sec) * (2 * 4 + 2 * 12 + 2 * 8)
